@@ -1661,3 +1661,122 @@ pub fn assoc_import_set(rng: &mut Rng) -> ModuleSet {
     ModuleSet { modules: vec![a, b] }
 }
 
+
+// ---------------------------------------------------------------------------------- tag legality (X.680 §25.6, §27.3, §29.3)
+/// Conservative legality check used by shrinkers whose predicate depends on downstream tools that assume legal tags:
+/// inside every SEQUENCE, SET and CHOICE that is not automatically tagged, the outermost tags of *all* components are
+/// pairwise distinct (stronger than the standard asks for SEQUENCE, so "true" always means legal). Untagged open types
+/// and dangling references make the answer "false".
+pub fn tags_legal(set: &ModuleSet) -> bool {
+    let env = set.type_env();
+    for m in &set.modules {
+        for a in &m.assigns {
+            let ty = match a {
+                Assign::Type { ty, .. } | Assign::Value { ty, .. } => ty,
+                Assign::Raw { .. } => continue,
+            };
+            if !ty_tags_legal(ty, m.tagging.is_automatic(), set, &env) {
+                return false;
+            }
+        }
+    }
+    true
+}
+
+fn struct_comps(s: &Struct) -> Vec<&Comp> {
+    let mut v: Vec<&Comp> = s.root.iter().collect();
+    if let Some(adds) = &s.ext {
+        for a in adds {
+            match a {
+                Addition::Comp(c) => v.push(c),
+                Addition::Group { comps, .. } => v.extend(comps.iter()),
+            }
+        }
+    }
+    v.extend(s.root2.iter());
+    v
+}
+
+fn ty_tags_legal(t: &Ty, automatic: bool, set: &ModuleSet, env: &BTreeMap<String, (usize, Ty)>) -> bool {
+    match &t.kind {
+        TyKind::Sequence(s) | TyKind::Set(s) | TyKind::Choice(s) => {
+            let comps = struct_comps(s);
+            for c in &comps {
+                if !ty_tags_legal(&c.ty, automatic, set, env) {
+                    return false;
+                }
+            }
+            if automatic && comps.iter().all(|c| c.ty.tag.is_none()) {
+                return true;
+            }
+            let mut seen = std::collections::BTreeSet::new();
+            for c in comps {
+                match outer_tags(&c.ty, automatic, set, env, 0) {
+                    Some(ts) => {
+                        for x in ts {
+                            if !seen.insert(x) {
+                                return false;
+                            }
+                        }
+                    }
+                    None => return false,
+                }
+            }
+            true
+        }
+        TyKind::SeqOf(e) | TyKind::SetOf(e) => ty_tags_legal(e, automatic, set, env),
+        _ => true,
+    }
+}
+
+fn outer_tags(t: &Ty, automatic: bool, set: &ModuleSet, env: &BTreeMap<String, (usize, Ty)>, depth: usize) -> Option<Vec<(TagClass, u32)>> {
+    if let Some(tag) = &t.tag {
+        return Some(vec![(tag.class, tag.num)]);
+    }
+    if depth > 16 {
+        return None;
+    }
+    let u = |n: u32| Some(vec![(TagClass::Universal, n)]);
+    match &t.kind {
+        TyKind::Boolean => u(1),
+        TyKind::Integer { .. } => u(2),
+        TyKind::BitString { .. } => u(3),
+        TyKind::OctetString => u(4),
+        TyKind::Null => u(5),
+        TyKind::Oid => u(6),
+        TyKind::Enumerated(_) => u(10),
+        TyKind::RelOid => u(13),
+        TyKind::UtcTime => u(23),
+        TyKind::GenTime => u(24),
+        TyKind::Str(k) => u(match k {
+            StrKind::Utf8 => 12,
+            StrKind::Numeric => 18,
+            StrKind::Printable => 19,
+            StrKind::Teletex => 20,
+            StrKind::Ia5 => 22,
+            StrKind::Graphic => 25,
+            StrKind::Visible => 26,
+            StrKind::General => 27,
+            StrKind::Universal => 28,
+            StrKind::Bmp => 30,
+        }),
+        TyKind::Sequence(_) | TyKind::SeqOf(_) => u(16),
+        TyKind::Set(_) | TyKind::SetOf(_) => u(17),
+        TyKind::Choice(s) => {
+            let comps = struct_comps(s);
+            if automatic && comps.iter().all(|c| c.ty.tag.is_none()) {
+                return Some((0..comps.len() as u32).map(|i| (TagClass::Context, i)).collect());
+            }
+            let mut v = vec![];
+            for c in comps {
+                v.extend(outer_tags(&c.ty, automatic, set, env, depth + 1)?);
+            }
+            Some(v)
+        }
+        TyKind::Ref { name, .. } => {
+            let (mi, ty) = env.get(name)?;
+            outer_tags(ty, set.modules[*mi].tagging.is_automatic(), set, env, depth + 1)
+        }
+        TyKind::Any | TyKind::ClassField { .. } => None,
+    }
+}
